@@ -218,7 +218,6 @@ class Gen:
             ps = []
             if self.has("generic") and self.r.random() < 0.5:
                 ps = ["A", "B"][:self.r.randint(1, 2)]
-
             def fty(allow):
                 if ps and self.r.random() < 0.5:
                     tv = ["tv", self.r.randrange(len(ps))]
@@ -377,7 +376,7 @@ class Gen:
             if r.random() < 0.5:
                 r.shuffle(order)
             fs = [[f, self.expr(ft, d - 1, True)] for f, ft in order]
-            return {"k": "rec", "name": ty[1] if r.random() < 0.7 else "", "fs": fs}
+            return {"k": "rec", "name": ty[1] if r.random() < 0.7 and not self.types[ty[1]].get("anon") else "", "fs": fs}
         v, ts = r.choice(self.variants_of(ty))
         return {"k": "ctor", "en": ty[1], "v": v, "args": [self.expr(t, d - 1, True) for t in ts]}
 
@@ -761,7 +760,13 @@ class Gen:
                 e = self.expr(ty, d, True)
                 n = self.fresh()
             self.declare(n, ty)
-            return let(n, ty, e)
+            st = let(n, ty, e)
+            if self.has("anonrec") and isinstance(ty, list) and ty[0] == "named" and len(ty) == 2 and \
+                    e.get("k") == "rec" and not e.get("name") and r.random() < 0.6:
+                # no annotation: the type of the (anonymous, fields in any order) literal is only fixed by what the
+                # variable flows into later (an annotated let, a parameter, a typed field read)
+                st["ann"] = False
+            return st
         if f == "set":
             vs = [(n, t) for (n, t) in self.assignable()]
             if not vs:
